@@ -3,10 +3,10 @@ import SqlfluffVerif.Model.FixLoop
 # C17 — Fix and format are idempotent (fix-loop composition)
 
 If the first run ends on a *quiescent* tree — no enabled rule proposes a fix on it — a second run
-changes nothing (theorem). A stable exit of the loop is weaker than quiescence: the two witnesses
-below are concrete rule systems, evaluated by the kernel, in which the loop stops (`not changed`) on a
-tree that a fresh run does change — an oscillating pair stopped by the seen-before check, and a
-post-phase fix that re-enables a main-phase rule (main rules are never re-run after the post phase).
+changes nothing (theorem). A stable exit of the loop is weaker than quiescence: `C17_oscillation_witness` is a concrete rule
+system, evaluated by the kernel, in which the loop stops (`not changed`) on a tree that a fresh run does change — an oscillating
+pair stopped by the seen-before check. `C17_post_rules_run_in_main_loops` records what the trace correspondence established
+about the phases: post-phase rules run in every loop of the main phase as the code stands.
 Whether real rules reach quiescence is sampled end-to-end (`fix(fix(x)) = fix(x)`).
 -/
 namespace SqlfluffVerif.FixLoop
@@ -40,7 +40,7 @@ theorem phaseLoop_quiescent (sys : Sys) (rules all pr : List Rule) (ifp : Bool) 
     (h1 : ∀ r ∈ all, r ∈ rules) (h2 : ∀ r ∈ pr, r ∈ rules) (h : Quiescent sys rules st.tree) :
     phaseLoop sys all pr ifp (fuel + 1) idx st = ({ st with changed := false }, false) := by
   simp only [phaseLoop]
-  have hp : pass sys (if (ifp && idx == 0) = true then all else pr) (ifp && idx == 0) st = { st with changed := false } := by
+  have hp : pass sys (if ifp = true then all else pr) (ifp && idx == 0) st = { st with changed := false } := by
     apply pass_quiescent sys rules _ _ st _ h
     intro r hr
     split at hr
@@ -68,15 +68,17 @@ theorem C17_oscillation_witness :
     fixLoop oscSys [⟨1, false, true⟩, ⟨2, false, true⟩] 10 0 = (1, false) ∧
     fixLoop oscSys [⟨1, false, true⟩, ⟨2, false, true⟩] 10 1 = (0, false) := by decide
 
-/-- the two-phase gap: main rule 1 rewrites 0→1→2 and would also rewrite 3→4; post rule 2 rewrites
-    2→3. Main rules are not re-run after the post phase, so the first run returns 3 and a second run
-    returns 4. -/
+/-- As the code stands, the "run all rules" override of the first pass is never undone, so post-phase rules take part in every
+    loop of the main phase: main rule 1 rewrites 0→1→2 and 3→4, post rule 2 rewrites 2→3; one run goes all the way to 4 and a second
+    run changes nothing. (With the post rules confined to the post phase, as the comments in the code describe, the first run would
+    stop at 3 and a second run would move on to 4 — the two-phase gap; the trace correspondence is what showed which of the two the
+    code does.) -/
 def gapSys : Sys :=
   { propose := fun r t => if r == 1 && (t == 0 || t == 1 || t == 3) then some (10 + t) else if r == 2 && t == 2 then some 20 else none,
     applyF := fun t _ => (t + 1, true) }
 
-theorem C17_two_phase_gap_witness :
-    fixLoop gapSys [⟨1, false, true⟩, ⟨2, true, true⟩] 10 0 = (3, false) ∧
-    fixLoop gapSys [⟨1, false, true⟩, ⟨2, true, true⟩] 10 3 = (4, false) := by decide
+theorem C17_post_rules_run_in_main_loops :
+    fixLoop gapSys [⟨1, false, true⟩, ⟨2, true, true⟩] 10 0 = (4, false) ∧
+    fixLoop gapSys [⟨1, false, true⟩, ⟨2, true, true⟩] 10 4 = (4, false) := by decide
 
 end SqlfluffVerif.FixLoop
